@@ -179,8 +179,14 @@ def _task(task):
         kinds = set()
         try:
             with case_alarm(300):
+                # calibrator objects are shared by all packets: query them in ascending order AND in a scrambled order (big jumps up
+                # and down between consecutive queries), so that anything a calibrator remembers from its previous query shows
+                order = list(pats)
+                if label.startswith(("spline", "ctx")):
+                    m = len(pats)
+                    order += [pats[(i * 13 + 5) % m] for i in range(m)] if m > 2 and m % 13 else list(reversed(pats))
                 for sel in sels:
-                    for v in pats:
+                    for v in order:
                         bits = format(sel, "02b") + format(v, f"0{w}b") + "10100101" + "0" * tail
                         pkt = docs.packet_for(j, bits)
                         want = decode_packet(doc, pkt)
@@ -226,7 +232,8 @@ def _task_objects(task):
                 xs = sorted(r for r, _ in cal.points)
                 grid = sorted(set(xs + [(a + b) / 2 for a, b in zip(xs, xs[1:])] + [(3 * a + b) / 4 for a, b in zip(xs, xs[1:])]
                                   + [xs[0] - 0.5, xs[0] - 16, xs[-1] + 0.5, xs[-1] + 16]))
-            for x in grid:
+            scr = [grid[(i * 7 + 3) % len(grid)] for i in range(len(grid))] if len(grid) % 7 else list(reversed(grid))
+            for x in list(grid) + scr:   # ascending, then scrambled (the same calibrator object answers all queries)
                 for q in ((x, int(x)) if float(x).is_integer() else (x,)):   # int and float query of the same point
                     t.evals += 1
                     try:
